@@ -77,7 +77,10 @@ deriving Repr, Inhabited
 structure Doc where
   blocks : List Block
   finalNewline : Bool := true
-  tabMode : Nat := 0           -- 0 spaces; 1 tabs then spaces; 2 two spaces before the first tab
+  tabMode : Nat := 0           -- leading indentation: 0 spaces; 1 tabs then spaces; 2 two spaces before the first tab
+  tabQuote : Nat := 0          -- white space after block-quote markers: 0 spaces; 1 tabs then spaces; 2 a space before the first tab
+  tabQuoteD : Nat := 0         -- the same before the lines of link reference definitions (kept apart: see KNOWN_FINDINGS)
+  tabList : Nat := 0           -- white space after list markers, likewise
 deriving Repr, Inhabited
 
 /-! ## small helpers -/
@@ -274,8 +277,20 @@ end
 
 /-! ## spelling blocks: lines with their structural indentation kept apart -/
 
-/-- a source line: columns of structural leading whitespace (from column 0) and the rest -/
+/-- a source line: columns of structural leading whitespace (from column 0) and the rest. Inside the rest,
+    the structural white space that follows a block-quote or list marker is kept symbolic as the two bytes
+    `wsMarkQ, k` / `wsMarkL, k` (= k columns after a quote / list marker; contents are printable ASCII, so the mark cannot occur in them): the final
+    renderer knows the absolute column and can write it with spaces or with tabs reaching the same column. -/
 abbrev Line := Nat × Bytes
+
+def wsMarkQ : UInt8 := 1
+def wsMarkL : UInt8 := 2
+def wsMarkD : UInt8 := 3
+/-- line flags carried in the thousands of the indentation: 1 = lazy continuation line, 2 = line of a link
+    reference definition -/
+def lflag (l : Line) : Nat := l.1 / 1000
+def lcol (l : Line) : Nat := l.1 % 1000
+def wsSeg (mark : UInt8) (k : Nat) : Bytes := [mark, UInt8.ofNat (min k 255)]
 
 def blankLine : Line := (0, [])
 
@@ -345,25 +360,26 @@ def spellRefDef (noIndent : Bool) (d : RefDef) : List Line :=
   let head : Bytes := [91] ++ labelVariant d.labelVar d.label ++ [93, 58, 32] ++
     (if d.angle || destNeedsAngle d.dest then spellDest true d.dest d.ent else spellDest false d.dest d.ent)
   match d.title with
-  | none => [(d.indent % 4, head)]
+  | none => [(2000 + d.indent % 4, head)]
   | some t =>
-    if d.titleNextLine then [(d.indent % 4, head), (1, spellTitle d.titleQ t d.ent)]
-    else [(d.indent % 4, head ++ [32] ++ spellTitle d.titleQ t d.ent)]
+    if d.titleNextLine then [(2000 + d.indent % 4, head), (2001, spellTitle d.titleQ t d.ent)]
+    else [(2000 + d.indent % 4, head ++ [32] ++ spellTitle d.titleQ t d.ent)]
 
 /-- prefix the lines of a block-quote's content with the marker -/
 def quoteLine (tightMarker : Bool) (ind : Nat) (l : Line) : Line :=
-  if l.1 ≥ 1000 then l            -- a lazy paragraph continuation line keeps no container prefix (5.1)
+  if lflag l == 1 then l            -- a lazy paragraph continuation line keeps no container prefix (5.1)
   else if l.2.isEmpty then (ind, [62])
-  else if tightMarker && l.1 == 0 && l.2.head? != some 32 then (ind, [62] ++ l.2)
-  else (ind, [62, 32] ++ spaces l.1 ++ l.2)
+  else if tightMarker && lcol l == 0 && l.2.head? != some 32 then (lflag l * 1000 + ind, [62] ++ l.2)
+  else (lflag l * 1000 + ind, [62] ++ wsSeg (if lflag l == 2 then wsMarkD else wsMarkQ) (1 + lcol l) ++ l.2)
 
 /-- lines of a list item: the first carries the marker, the others the content offset -/
 def itemLines (ind : Nat) (marker : Bytes) (sp : Nat) (ls : List Line) : List Line :=
   match ls with
   | [] => [(ind, marker)]
   | first :: rest =>
-    (ind, marker ++ spaces sp ++ first.2) ::
-      rest.map fun l => if l.2.isEmpty then blankLine else if l.1 ≥ 1000 then l else (ind + marker.length + sp + l.1, l.2)
+    (lflag first * 1000 + ind, marker ++ wsSeg wsMarkL sp ++ first.2) ::
+      rest.map fun l => if l.2.isEmpty then blankLine else if lflag l == 1 then l
+        else (lflag l * 1000 + ind + marker.length + sp + lcol l, l.2)
 
 /-- `cont`: indentation of the continuation lines (any amount is stripped, 4.8); `cont % 8 ≥ 4` asks for LAZY
     continuation lines (5.1 "laziness", 5.2 rule 5): they carry no block-quote marker / list indentation -/
@@ -438,7 +454,35 @@ def spellIndent (mode n : Nat) : Bytes :=
   else if mode % 3 == 1 then List.replicate (n / 4) 9 ++ spaces (n % 4)
   else [32, 32, 9] ++ List.replicate (n / 4 - 1) 9 ++ spaces (n % 4)
 
-def renderLine (mode : Nat) (l : Line) : Bytes := spellIndent mode (l.1 % 1000) ++ l.2
+/-- `k` columns of white space starting at column `col`: as many tabs as fit (each reaches the next multiple
+    of 4), then spaces -/
+def wsGreedy : Nat → Nat → Nat → Bytes
+  | 0, _, k => spaces k
+  | fuel + 1, col, k =>
+    if k == 0 then []
+    else if col - col % 4 + 4 ≤ col + k then 9 :: wsGreedy fuel (col - col % 4 + 4) (col + k - (col - col % 4 + 4))
+    else spaces k
+
+/-- white space after a marker (2.2, examples 5–9: `>\t\tfoo`, `-\t\tfoo`): spaces, tabs reaching the same
+    column, or one space and then tabs reaching the same column -/
+def wsFrom (mode col k : Nat) : Bytes :=
+  if mode % 3 == 0 then spaces k
+  else if mode % 3 == 2 && col - col % 4 + 4 ≤ col + k && col % 4 ≤ 2 then
+    32 :: 9 :: wsGreedy k (col - col % 4 + 4) (col + k - (col - col % 4 + 4))
+  else wsGreedy k col k
+
+/-- expand the symbolic marker white space, tracking the column (every other byte is one column wide) -/
+def renderBody (modeQ modeD modeL : Nat) : Nat → Bytes → Bytes
+  | _, [] => []
+  | _, [c] => if c == wsMarkQ || c == wsMarkL || c == wsMarkD then [] else [c]
+  | col, c :: k :: rest =>
+    if c == wsMarkQ then wsFrom modeQ col k.toNat ++ renderBody modeQ modeD modeL (col + k.toNat) rest
+    else if c == wsMarkD then wsFrom modeD col k.toNat ++ renderBody modeQ modeD modeL (col + k.toNat) rest
+    else if c == wsMarkL then wsFrom modeL col k.toNat ++ renderBody modeQ modeD modeL (col + k.toNat) rest
+    else c :: renderBody modeQ modeD modeL (col + 1) (k :: rest)
+
+def renderLine (mode modeQ modeD modeL : Nat) (l : Line) : Bytes :=
+  spellIndent mode (lcol l) ++ renderBody modeQ modeD modeL (lcol l) l.2
 
 def joinLines : List Bytes → Bytes
   | [] => []
@@ -447,7 +491,7 @@ def joinLines : List Bytes → Bytes
 
 /-- the Markdown source of an annotated document -/
 def spell (d : Doc) : Bytes :=
-  let ls := (spellBs false false 0 0 d.blocks).map (renderLine d.tabMode)
+  let ls := (spellBs false false 0 0 d.blocks).map (renderLine d.tabMode d.tabQuote d.tabQuoteD d.tabList)
   joinLines ls ++ (if d.finalNewline then [10] else [])
 
 /-! ## expected HTML of blocks -/
